@@ -661,7 +661,14 @@ func c16MwX(o *Out, kind string, state int, layout []int, codes [][]*int64, viaC
 // ---------------------------------------------------------------- (h) HTTP Frontend.Stop reports every server's error
 
 var c16CertOnce sync.Once
-var c16CertPath, c16KeyPath string
+var c16CertPath, c16KeyPath, c16CertDir string
+
+// c16CertCleanup removes the scratch directory of the self-signed certificate (deferred by the stream and the replay).
+func c16CertCleanup() {
+	if c16CertDir != "" {
+		_ = os.RemoveAll(c16CertDir)
+	}
+}
 
 // a self-signed certificate for the HTTPS server (generated once per run, in a temporary directory)
 func c16Cert() (string, string) {
@@ -681,6 +688,7 @@ func c16Cert() (string, string) {
 			panic(err)
 		}
 		dir, _ := os.MkdirTemp("", "c16cert")
+		c16CertDir = dir
 		c16CertPath, c16KeyPath = filepath.Join(dir, "cert.pem"), filepath.Join(dir, "key.pem")
 		_ = os.WriteFile(c16CertPath, pem.EncodeToMemory(&pem.Block{Type: "CERTIFICATE", Bytes: der}), 0o600)
 		_ = os.WriteFile(c16KeyPath, pem.EncodeToMemory(&pem.Block{Type: "EC PRIVATE KEY", Bytes: kb}), 0o600)
@@ -1258,6 +1266,7 @@ func c16GenReload(rng *rand.Rand, nops int) []c16ROp {
 // ---------------------------------------------------------------- streams
 
 func c16Replay(o *Out, in map[string]interface{}) error {
+	defer c16CertCleanup()
 	switch jStr(in["t"]) {
 	case "group":
 		var ms []c16Mem_
@@ -1319,6 +1328,7 @@ func c16Perms(n int) [][]int {
 }
 
 func c16Stream(o *Out, rng *rand.Rand, n int) {
+	defer c16CertCleanup()
 	thorough := os.Getenv("VERIF_TIER") == "thorough"
 	reps := 1
 	if thorough {
